@@ -110,11 +110,13 @@ def workdir(tag: str) -> Path:
 def tlc(spec: Path, cfg: Path, *, workers: int | str = "auto", env: dict | None = None,
         timeout: int = 900, coverage: bool = False, simulate: str | None = None,
         depth: int | None = None, seed: int | None = None, extra: list[str] | None = None,
-        deque: bool = False, heap: str = "8g") -> TLCResult:
+        deque: bool = False, heap: str = "8g", xss: str | None = None) -> TLCResult:
     """Run TLC on `spec` with `cfg`.  Scratch (-metadir) lives under /verif/.work and is removed."""
     md = workdir("tlc")
     lib = ":".join(str(SPEC / d) for d in ("lib", "algo", "kernels", "objects", "trace"))
     cmd = ["java", "-XX:+UseParallelGC", f"-Xmx{heap}", f"-DTLA-Library={lib}"]
+    if xss:
+        cmd.append(f"-Xss{xss}")       # deep recursive operators (polynomial folds) need a larger thread stack
     if deque:
         cmd.append("-Dtlc2.tool.queue.IStateQueue=StateDeque")
     cmd += ["-cp", _TLC_JAR, "tlc2.TLC", "-workers", str(workers), "-metadir", str(md / "m"),
